@@ -300,6 +300,42 @@ KINDS = 'not isinstance(%s, (DevelopmentBranch, StabilizationBranch, ' \
     'HotfixBranch))' % B
 
 
+def _with_stored(f, guard):
+    """The guard's test, with an attribute path that a statement just
+    before it (same block) assigns written out as the assigned value:
+        job.settings.x = V
+        if job.settings.x not in ...:      ->   V not in ..."""
+    import copy
+    pm = parent_map(f.node)
+    up = pm.get(guard)
+    block = None
+    for name in ('body', 'orelse', 'finalbody'):
+        if guard in (getattr(up, name, None) or []):
+            block = getattr(up, name)
+    test = guard.test
+    if block is None:
+        return test
+    stored = {}
+    for st in block[:block.index(guard)]:
+        if isinstance(st, ast.Assign) and len(st.targets) == 1 and \
+                isinstance(st.targets[0], ast.Attribute):
+            stored[src(st.targets[0])] = st.value
+        else:
+            for n in ast.walk(st):
+                if isinstance(n, ast.Attribute) and \
+                        isinstance(n.ctx, ast.Store):
+                    stored.pop(src(n), None)
+    if not stored:
+        return test
+
+    class T(ast.NodeTransformer):
+        def visit_Attribute(self, node):
+            if isinstance(node.ctx, ast.Load) and src(node) in stored:
+                return copy.deepcopy(stored[src(node)])
+            return self.generic_visit(node)
+    return T().visit(copy.deepcopy(test))
+
+
 def create_preconditions(prog, an, rep):
     f = need_func(an, JOBS + '.create_branch.create_branch')
     c = an.cfg(f)
@@ -317,14 +353,15 @@ def create_preconditions(prog, an, rep):
         'is not included in latest development branch':
             'not %s[-1].includes_commit(job.settings.branch_from)' % DEVS,
         'without a supporting development branch':
-            'job.settings.branch_from not in %s' % DEVS,
+            "DevelopmentBranch(%s, 'development/%%s.%%s' %% (%s.major, "
+            "%s.minor)) not in %s" % (REPO, B, B, DEVS),
         'due to queued data': 'build_queue_collection(job).queued_prs',
         'is not a GWF destination branch': KINDS,
     }
     for k, text in expect.items():
         if k in seen:
             rep.evaluated()
-            rep.check(cond_equiv(f, seen[k][0].test, text), R,
+            rep.check(cond_equiv(f, _with_stored(f, seen[k][0]), text), R,
                       '%s: "%s" tests %s' % (f.qname, k, text),
                       f.where(seen[k][0]), 'guard "%s" now tests %s' % (
                           k, canon(f, seen[k][0].test)))
